@@ -339,6 +339,22 @@ example : noEmptyLoops (wcifOf sR3) = true := by decide +kernel
 example : ((walkStore allCont sR3).1.filter (fun e => match e with | .item k v => k == a!"_x" && v == vR | _ => false)).length = 2 := by
   decide +kernel
 example : C07_HandleFor sR3.db lR 1 (a!"_x") := ⟨by decide +kernel, rfl, by decide +kernel⟩
+-- the update route: iterator on the two-packet loop, next, update_packet {_x: v} (through the codec), close; a fresh iterator then
+-- delivers v in packet 1 and the old value (unknown) in packet 2; the route's hypotheses (tied iterator, inside its transaction) are
+-- what C06_open_refines gives for the iterator just opened
+private def updR : Option (Bool × Bool × List Bool) :=
+  match getPackets sR2 lR with
+  | (s3, .ok it) =>
+    match nextPacket s3 it with
+    | (it1, .ok _) =>
+      let r := updatePacketC s3 it1 [(a!"_x", vR)]
+      let s5 := (closeIter r.1).1
+      match readLoop s5 lR (readFuel s5) with
+      | .ok (ps, _) => some (s3.txn.isSome, r.2.toOption.isSome, ps.map (fun p => pktGet p (a!"_x") == some vR))
+      | _ => none
+    | _ => none
+  | _ => none
+example : updR = some (true, true, [true, false]) := by decide +kernel
 -- nested save frames: block b { save f { save g { _x } } } — the position hypotheses of C07_WalkDelivers through C07_walk_frame_position
 private def sF1 : Store := (createFrame sR0 hR (some (nmR (a!"f")))).1
 private def hF : CH := { id := 2, code := a!"f", isBlock := false }
